@@ -1,5 +1,5 @@
 """Self-test variants for C05."""
-from sa.selftests import V
+from sa.selftests import V, Variant
 
 T = "moptipyapps/tsp/tour_length.py"
 I = "moptipyapps/tsp/instance.py"
@@ -74,4 +74,35 @@ VARIANTS = [
     V("silent-aug-assign", I,
       "upper_bound = upper_bound + farthest_neighbor",
       "upper_bound += farthest_neighbor", "silent"),
+]
+
+VARIANTS += [
+    Variant("instance-shares-callers-matrix", I, [
+        ("        obj: Final[Instance] = super().__new__(\n"
+         "            cls, use_shape, int_range_to_dtype(\n"
+         "                min_value=-limit, max_value=limit))\n"
+         "        np.copyto(obj, matrix, \"unsafe\")\n",
+         "        obj: Final[Instance] = np.asarray(matrix, "
+         "int_range_to_dtype(\n"
+         "            min_value=-limit, max_value=limit)).view(cls)\n")],
+        "fire", "D5.3"),
+    Variant("silent-instance-from-np-array", I, [
+        ("        obj: Final[Instance] = super().__new__(\n"
+         "            cls, use_shape, int_range_to_dtype(\n"
+         "                min_value=-limit, max_value=limit))\n"
+         "        np.copyto(obj, matrix, \"unsafe\")\n",
+         "        obj: Final[Instance] = np.array(matrix, "
+         "int_range_to_dtype(\n"
+         "            min_value=-limit, max_value=limit)).view(cls)\n")],
+        "silent"),
+    Variant("instance-from-astype-unverified", I, [
+        ("        obj: Final[Instance] = super().__new__(\n"
+         "            cls, use_shape, int_range_to_dtype(\n"
+         "                min_value=-limit, max_value=limit))\n"
+         "        np.copyto(obj, matrix, \"unsafe\")\n",
+         "        obj: Final[Instance] = matrix.astype(int_range_to_dtype(\n"
+         "            min_value=-limit, max_value=limit)).view(cls)\n"),
+        ("                if obj[i, j] != matrix[i, j]:",
+         "                if obj[i, j] != obj[i, j]:")],
+        "fire", "D5.3"),
 ]
